@@ -30,7 +30,8 @@ def go (s : St) (sent : Sent) : List (List String) → List String → List Stri
     | some (m, sent') =>
       let (s', o) := step s m
       let (d, storm) := fmtDispatch s'.alive o.dispatched
-      let tok := s!"{fmtReply o.reply}/{d}"
+      let cb := String.ofList ((List.range s'.n).map fun r => if (s'.ring r).call.isSome then '1' else '0')
+      let tok := s!"{fmtReply o.reply}/{d}/{cb}"
       if storm then ((tok :: acc).reverse ++ ops.map fun _ => "x") else go s' sent' ops (tok :: acc)
 
 def run (toks : List String) : String :=
